@@ -6,6 +6,7 @@ import (
 	"compress/gzip"
 	"compress/zlib"
 	"fmt"
+	"hash/adler32"
 	"net/http"
 	"net/url"
 	"strings"
@@ -53,10 +54,11 @@ type Message struct {
 	Trailers       []Header
 	FormKind       string // "" | urlencoded | multipart
 	Params         []ParamDesc
-	NonUTF8Body    bool // Entity is not valid UTF-8
-	NonUTF8Param   bool // some form parameter value is not valid UTF-8
-	NonUTF8Query   bool // some query value is not valid UTF-8
-	BadQuery       bool // the query holds a pair net/url does not accept
+	NonUTF8Body    bool     // Entity is not valid UTF-8
+	NonUTF8Param   bool     // some form parameter value is not valid UTF-8
+	NonUTF8Query   bool     // some query value is not valid UTF-8
+	BadQuery       bool     // the query holds a pair net/url does not accept
+	BadPairs       []Header // ... those pairs (also part of Query)
 	ChunkCount     int
 	TrailerPresent bool
 }
@@ -92,6 +94,23 @@ func compress(enc string, plain []byte) []byte {
 		w, _ := gzip.NewWriterLevel(&buf, gzip.BestSpeed)
 		w.Write(plain)
 		w.Close()
+	case "deflate-zlib-small":
+		// a zlib stream whose header declares the smallest window (512 B ..
+		// 16 KiB) that covers the data - what zlib writes with windowBits 9..14
+		// (headers 18 xx .. 68 xx). Go's writer only produces 78 xx, so the
+		// container is put together here: CMF, FLG, raw DEFLATE, Adler-32.
+		wb := uint(9)
+		for wb < 15 && 1<<wb < len(plain) {
+			wb++
+		}
+		cmf := byte((wb-8)<<4 | 8)
+		flg := byte((31 - (uint(cmf)<<8)%31) % 31) // FLEVEL 0, no dictionary
+		buf.Write([]byte{cmf, flg})
+		w, _ := flate.NewWriter(&buf, flate.BestSpeed)
+		w.Write(plain)
+		w.Close()
+		sum := adler32.Checksum(plain)
+		buf.Write([]byte{byte(sum >> 24), byte(sum >> 16), byte(sum >> 8), byte(sum)})
 	case "deflate-zlib":
 		// the "deflate" coding as RFC 7230 4.2.2 defines it: zlib-wrapped
 		w, _ := zlib.NewWriterLevel(&buf, zlib.BestSpeed)
@@ -171,7 +190,7 @@ func (m *Message) buildBody() {
 		}
 	}
 	switch s.Encoding {
-	case "gzip", "deflate", "GZIP", "x-gzip", "deflate-zlib":
+	case "gzip", "deflate", "GZIP", "x-gzip", "deflate-zlib", "deflate-zlib-small":
 		m.Entity = compress(s.Encoding, plain)
 		m.Plain = plain
 		m.Decodable = true
@@ -182,7 +201,7 @@ func (m *Message) buildBody() {
 	switch s.Encoding {
 	case "gzip-bad":
 		m.Encoding = "gzip"
-	case "deflate-zlib":
+	case "deflate-zlib", "deflate-zlib-small":
 		m.Encoding = "deflate"
 	default:
 		m.Encoding = s.Encoding
@@ -255,9 +274,9 @@ func Build(s Spec) *Message {
 				q = append(q, nv.Raw)
 				if nv.Bad {
 					m.BadQuery = true
-				} else {
-					m.Query = append(m.Query, Header{nv.Name, nv.Value.Lit})
+					m.BadPairs = append(m.BadPairs, Header{nv.Name, nv.Value.Lit})
 				}
+				m.Query = append(m.Query, Header{nv.Name, nv.Value.Lit})
 				continue
 			}
 			v := string(nv.Value.Bytes())
